@@ -288,22 +288,8 @@ def ascending_rule(run, f, rid):
             if arm is None:
                 why.append("no match on the bucket pop result")
             else:
-                from analysis.table import result_outcomes
-                w_ = PathWalker(b, max_paths=60000)
-                n_ex = n_inf = 0
-                for (pth, _c, sv) in w_.walk(0, lambda bid, t: ("return",) if t["k"] == "return" else None):
-                    if sv[0] != "return":
-                        continue
-                    _oc, feas = result_outcomes(b, du, pth)
-                    if not feas:
-                        n_inf += 1
-                        continue
-                    n_ex += 1
-                    hit = [i for i, x in enumerate(pth) if x in arms]
-                    if hit and any(x == nb for x in pth[hit[0]:]):
-                        why.append("a successful bucket pop does not return immediately (the scan continues to later priorities)")
-                run.paths(rid, fn + "/scan", b.loc(), n_ex, n_inf)
-                why = sorted(set(why))
+                # "a hit ends the scan" is judged by C05-FIRST-HIT (rules/wave2.py), from the success arm onwards: a path from
+                # the function entry is acyclic and cannot show the iterator being stepped again after the hit
                 # and the value returned on that arm is the popped one
                 lw = Linear(b, [], lambda c, t: c == inner, lambda c, t: None)
                 lw.run()
